@@ -257,7 +257,7 @@ func (h *zvC36Harness) compare(cs zvC36Case, a, b, prev *zvC36Obs) {
 			}
 			if extra > 0 && extraAllOld && missing == 0 {
 				viol(vh.Sig("clause", "replaced-session-old-fsm-still-dials"), "peer %s was re-created by the reload, but connection attempts with the parameters of the previous configuration are still made in the %v after the reload: seen %v, a fresh start makes %v", k, zvC36Window, pa.DialParams, pb.DialParams)
-			} else if !reported["ttl"] && !reported["authentication-key"] && !reported["passive"] {
+			} else if len(reported) == 0 { // otherwise a consequence of what was reported above
 				notApplied("dial-parameters", fmt.Sprint(pa.DialParams), fmt.Sprint(pb.DialParams))
 			}
 		}
